@@ -218,6 +218,30 @@ def backend_insts(tier):
                   '  unsigned int in_r;\n  $ROOT(&sb, in_r);\n'))
     out.append(mk('impl_get_sandboxed_pointer', 'vsbx.impl_get_sandboxed_pointer', 'rlbox_sandbox<vsbx>& s, const void* a', 's.get_sandboxed_pointer<int*>(a);',
                   '  uintptr_t in_a;\n  $ROOT(&sb, (const void *)in_a);\n'))
+    # the no-context forms: the backend finds the sandbox through the finder it is handed (rlbox_sandbox::find_sandbox_from_example:
+    # contract proved under C04 over the registry of C14 - it returns the live sandbox whose region contains the example)
+    VS = cs('rlbox::vsbx')
+    finder = ('struct %s *finder_stub(const void *example)\n'
+              '__CPROVER_requires(V_WHICH((uintptr_t)example) != -1)\n'
+              '__CPROVER_ensures(__CPROVER_return_value == g_found && g_found->slot == V_WHICH((uintptr_t)example))\n__CPROVER_assigns();\n' % VS)
+    for name, key, params, expr, call in [
+            ('impl_get_unsandboxed_pointer_no_ctx', 'vsbx.impl_get_unsandboxed_pointer_no_ctx', 'uint32_t r, const void* ex', 'rlbox_sandbox<vsbx>::get_unsandboxed_pointer_no_ctx<int*>(r, ex);',
+             '  unsigned int in_r; uintptr_t in_ex;\n  $ROOT(in_r, (const void *)in_ex, finder_stub);\n'),
+            ('impl_get_sandboxed_pointer_no_ctx', 'vsbx.impl_get_sandboxed_pointer_no_ctx', 'const void* a, const void* ex', 'rlbox_sandbox<vsbx>::get_sandboxed_pointer_no_ctx<int*>(a, ex);',
+             '  uintptr_t in_a, in_ex;\n  $ROOT((const void *)in_a, (const void *)in_ex, finder_stub);\n')]:
+        pred, text = LEAVES[key]
+        cl = '__CPROVER_requires(V_BACKEND_WF && __CPROVER_r_ok(g_found, sizeof(*g_found)) && (g_found->slot == 0 || g_found->slot == 1))\n' + clauses_text(text)
+        h = REGIONS + '  struct %s found; int in_slot; found.slot = in_slot; g_found = &found; __CPROVER_assume(in_slot == 0 || in_slot == 1);\n' % VS + call
+
+        def pick(tu, fn, name=name):
+            try:
+                return find_func(tu, name, 'rlbox::vsbx')
+            except Exception:
+                return find_func(tu, name, 'rlbox::vsbx', lambda f, rn: 'IPiE' in f.get('mangledName', ''))
+        it = Inst('c03_backend_' + name, params, expr, cl, h, leaves=[], prop=PROP, root_name=name, tier=tier, pre=PRE_GHOST + ' struct %s *g_found;\n' % VS, post_protos=finder,
+                  root_pick=pick, opts={'param_fn_stubs': {'*': 'finder_stub'}}, extra_replace=['finder_stub'],
+                  note='body of the verification backend against the A_backend contract "%s"; the finder is a stub with the contract proved under C04' % key)
+        out.append(it)
     for it in out:
         it.solvers = ('minisat', 'cvc5', 'z3')     # the backend swizzle uses % : SMT back ends decide it
     return out
